@@ -112,6 +112,16 @@ def _cint(t):
     return None
 
 
+_INT_RANGES = {'i8': (-128, 127), 'i16': (-32768, 32767), 'i32': (-2**31, 2**31 - 1), 'i64': (-2**63, 2**63 - 1), 'isize': (-2**63, 2**63 - 1),
+               'u8': (0, 255), 'u16': (0, 65535), 'u32': (0, 2**32 - 1), 'u64': (0, 2**64 - 1), 'usize': (0, 2**64 - 1), 'i128': (-2**127, 2**127 - 1), 'u128': (0, 2**128 - 1)}
+
+
+def _tryfrom_range(name):
+    import re
+    m = re.search(r'TryFrom<\w+> for (\w+)>::try_from$', name)
+    return _INT_RANGES.get(m.group(1)) if m else None
+
+
 def _range_contains(t):
     """RangeInclusive::contains(&(lo..=hi), &x) / Range::contains(&(lo..hi), &x) -> (lo term, hi term, inclusive?, x)"""
     name = t[1]
@@ -160,6 +170,22 @@ class PathFacts:
             k = lambda y: ('const', _cint(y), 'i128') if _cint(y) is not None else y
             self.add_cmp('Ge', x, k(lo))
             self.add_cmp('Le' if inc else 'Lt', x, k(hi))
+        elif t[0] == 'discr' and isinstance(t[1], tuple) and t[1] and t[1][0] == 'call' and 'TryFrom<' in t[1][1] and t[1][1].endswith('::try_from') and len(t[1][2]) == 1 \
+                and _tryfrom_range(t[1][1]) is not None and (op == 'eq' and val in (0, 1) or op == 'ne' and isinstance(val, tuple) and len(val) == 1 and val[0] in (0, 1)):
+            # `N::try_from(x)` is Ok exactly when x lies in the range of N
+            lo, hi = _tryfrom_range(t[1][1])
+            ok_ = (val == 0) if op == 'eq' else (val[0] == 1)
+            x = _unref(t[1][2][0])
+            if ok_:
+                self.add_cmp('Ge', x, ('const', lo, 'i128'))
+                self.add_cmp('Le', x, ('const', hi, 'i128'))
+            else:
+                la = lin(x)
+                if la is not None and len(la[0]) == 1 and list(la[0].values()) == [1] and la[1] == 0:
+                    a_ = list(la[0])[0]
+                    outside = IntervalSet([(-INF, lo - 1), (hi + 1, INF)])
+                    self.iv[a_] = self.iv.get(a_, IntervalSet()).intersect(outside)
+                    self._closed = False
         elif op == 'eq' and isinstance(val, int) and not isinstance(val, bool):
             self.add_cmp('Eq', t, ('const', val, 'i128'))
         elif op == 'ne' and isinstance(val, tuple):
